@@ -72,8 +72,14 @@ theorem ginvx_dropSeriesIndex {exc : String → Prop} {pend : List Nat} {st : St
       simp only [mem_sdel]
       rw [h.tracked x]
     cache := fun e he => by
-      obtain ⟨h1, h2⟩ := h.cache e he
-      exact ⟨h1, fun x hx => h2 x ((mem_sdel _ _ _).mp hx).1⟩
+      simp only [cacheDel] at he
+      obtain ⟨e0, he0, rfl⟩ := List.mem_map.mp he
+      obtain ⟨h1, h2⟩ := h.cache e0 he0
+      split
+      · refine ⟨fun x hx => h1 x ((mem_sdel _ _ _).mp hx).1, fun x hx t ht hn htag => ?_⟩
+        obtain ⟨hxl, hxne⟩ := (mem_sdel _ _ _).mp hx
+        exact (mem_sdel _ _ _).mpr ⟨h2 x hxl t ht hn htag, hxne⟩
+      · exact ⟨h1, fun x hx => h2 x ((mem_sdel _ _ _).mp hx).1⟩
     fresh := fun hc' => by simp only at hc'; rw [hc] at hc'; simp at hc' }
 
 /-- whether some partition still has a series of the measurement in its id set. -/
